@@ -1,3 +1,4 @@
 pub mod direct;
 pub mod duplex;
+pub mod rxscript;
 pub mod txscript;
